@@ -597,8 +597,10 @@ class Hier:
         md.create_all(self.engine)
         self.md = md
 
-    def load(self, ds):
-        """rows inserted with plain Core INSERTs (no ORM involved in producing the data)"""
+    def load(self, ds, via_orm=False):
+        """rows inserted with plain Core INSERTs (no ORM involved in producing the data); via_orm=True: the rows are persisted as
+        instances of their classes instead (the mapper then has to write the discriminator).  Returns None or a text describing a
+        stored discriminator that does not name the instance's class."""
         with self.engine.begin() as conn:
             for c in reversed(self.cls):
                 if c in self.tables:
@@ -606,6 +608,20 @@ class Hier:
             conn.execute(self.h.delete())
             if ds["nh"]:
                 conn.execute(self.h.insert(), [dict(id=i + 1) for i in range(ds["nh"])])
+        if via_orm:
+            with self.orm.Session(self.engine) as s:
+                for i, r in enumerate(ds["rows"]):
+                    c = r["cls"]
+                    kw = {HATTR[d]: n(r["v"][HALL.index(d)]) for d in self.anc[c]}
+                    s.add(self.classes[c](id=i + 1, hid=n(r["hid"]), **kw))
+                s.commit()
+            with self.engine.connect() as conn:
+                stored = dict(conn.execute(self.sa.select(self.tables["A"].c.id, self.tables["A"].c.type)).all())
+            for i, r in enumerate(ds["rows"]):
+                if stored.get(i + 1) != r["cls"]:
+                    return "instance of %s (id %d) persisted with discriminator %r" % (r["cls"], i + 1, stored.get(i + 1))
+            return None
+        with self.engine.begin() as conn:
             for i, r in enumerate(ds["rows"]):
                 rid, c = i + 1, r["cls"]
                 vals = {HATTR[d]: n(r["v"][HALL.index(d)]) for d in self.anc[c]}
